@@ -256,7 +256,9 @@ func check(c Case) pbt.Verdict {
 	if err != nil {
 		return pbt.Verdict{Excluded: "does-not-read", Key: v.Key}
 	}
-	ctx, cancel := context.WithTimeout(context.Background(), 2*time.Second)
+	// 300 ms: a runaway non-tail recursion (possible after token mutation) grows the Go stack by about
+	// 0.5 GB per second; the context must end well before the runtime's 1 GB stack limit kills the process
+	ctx, cancel := context.WithTimeout(context.Background(), 300*time.Millisecond)
 	r := box.Eval(ctx, ast, e)
 	cancel()
 	if r.Panicked {
@@ -279,7 +281,7 @@ func check(c Case) pbt.Verdict {
 		if err2 == nil {
 			wrapped := types.List{Val: []types.MalType{types.Symbol{Val: "try"}, ast2,
 				types.List{Val: []types.MalType{types.Symbol{Val: "catch"}, types.Symbol{Val: "e__"}, types.NewKeyword("caught__")}}}}
-			ctx2, cancel2 := context.WithTimeout(context.Background(), 2*time.Second)
+			ctx2, cancel2 := context.WithTimeout(context.Background(), 300*time.Millisecond)
 			r2 := box.Eval(ctx2, wrapped, e2)
 			cancel2()
 			if r2.Panicked {
